@@ -6,7 +6,7 @@ from .emit import events_of_trace, flat_puts
 from .engine import VERIF, load_json
 from .facts import callee, show, site, unwrap, walk
 from .symx import all_calls, closure_paths, cshow, paths_of, tshow
-from .terms import display_norm, is_call, is_map_call, mentions, pat_variants, same, subterms
+from .terms import display_norm, is_call, is_map_call, mentions, opt_polarity, pat_variants, same, subterms
 
 V = "ipp::value::IppValue::"
 VT = "ipp::model::ValueTag::"
@@ -50,12 +50,24 @@ def field_of_self(t):
     return None
 
 
+INT_CONV = ("std::convert::From::from", "std::convert::Into::into", "std::convert::TryFrom::try_from")
+
+
 def strip_cast(t):
     casts = []
-    while isinstance(t, tuple) and t[0] == "cast":
-        casts.append(t[1])
-        t = t[2]
+    while isinstance(t, tuple) and (t[0] == "cast" or (is_call(t) and t[1] in INT_CONV[:2] and len(t[2]) == 1 and int_typed(t))):
+        if t[0] == "cast":
+            casts.append(t[1])
+            t = t[2]
+        else:
+            casts.append((t[3].get("ty") if len(t) > 3 and isinstance(t[3], dict) else None) or "usize")
+            t = t[2][0]
     return t, casts
+
+
+def int_typed(t):
+    ty = (t[3].get("ty") if len(t) > 3 and isinstance(t[3], dict) else "") or ""
+    return ty in ("u8", "u16", "u32", "u64", "usize", "i8", "i16", "i32", "i64", "isize", "u128", "i128")
 
 
 def linear(t):
@@ -64,7 +76,10 @@ def linear(t):
     if isinstance(t, tuple) and t[0] == "lit" and isinstance(t[1], int):
         return {"": t[1]}
     if is_call(t) and t[1] in LEN_CALLS:
-        f = field_of_self(t[2][0])
+        x = t[2][0]
+        while is_call(x) and x[1] in BYTES_CALLS:      # s.as_bytes().len() is s.len()
+            x = x[2][0]
+        f = field_of_self(x)
         return {f: 1} if f else None
     if isinstance(t, tuple) and t[0] == "bin" and t[1] == "Add":
         a, b = linear(t[2]), linear(t[3])
@@ -133,8 +148,10 @@ def r_tagmap(run, F, T, check_registry=True, rule="R-TAGMAP"):
                 new = ("tag", r[2][1])
             elif field_of_self(r) == ("Other", "tag"):
                 new = ("own-tag",)
-            elif is_call(r, "std::option::Option::<T>::unwrap_or") and any(is_call(x, "core::slice::<impl [T]>::first") for x in subterms(r)):
+            elif is_call(r, "std::option::Option::<T>::unwrap_or", "std::option::Option::<T>::map_or") and any(is_call(x, "core::slice::<impl [T]>::first") for x in subterms(r)):
                 m = mentions(r)
+                if r[1].endswith("::map_or") and len(r[2]) == 3 and r[2][2][0] == "def":
+                    m = dict(m, callees=set(m["callees"]) | {r[2][2][1]})       # map_or(default, Self::to_tag): the mapping fn is a path
                 dflt = r[2][1]
                 new = ("first-element", TO_TAG in m["callees"], dflt[2][1] if dflt[0] == "cast" and dflt[2][0] == "ctor" else None)
             else:
@@ -158,8 +175,8 @@ def r_tagmap(run, F, T, check_registry=True, rule="R-TAGMAP"):
                 if alts:
                     tagv = alts[0]
                     tagvs = alts      # every alternative of an or-pattern decodes to this arm's kind
-                if is_call(c[1], "num_traits::FromPrimitive::from_u8") and "None" in c[2] and not c[2].startswith("!"):
-                    tagv = "<unknown byte>"
+                if is_call(c[1], "num_traits::FromPrimitive::from_u8", "ipp::model::ValueTag::from_u8") and opt_polarity(c) is False:
+                    tagv = "<unknown byte>"      # `None =>` arm, `let Some(..) = .. else`, `if let Some .. else`
                 if isinstance(c[1], tuple) and c[1][0] == "proj" and c[4].get("k") in ("wild", "bind") and tagv is None:
                     tagv = "<other tags>"
         if val is None:
@@ -210,7 +227,6 @@ def r_tagmap(run, F, T, check_registry=True, rule="R-TAGMAP"):
             fc = [c for c in p.conds if c[0] == "match" and is_call(c[1], "core::slice::<impl [T]>::first") and field_of_self(c[1][2][0]) == ("Array", "0")]
             if not fc:
                 continue
-            from .terms import opt_polarity
             pol = opt_polarity(fc[-1])
             if pol is True and is_call(p.ret, TO_TAG) and p.ret[2][0][0] == "proj" and p.ret[2][0][1] is fc[-1][1] or (pol is True and is_call(p.ret, TO_TAG) and p.ret[2][0][0] == "proj"):
                 some = True
@@ -445,8 +461,9 @@ def r_layout(run, F, T, external=True, rule="R-LAYOUT", casts=True):
         for p in paths_of(gb):
             if p.kind == "try" or (p.ret[0] == "ctor" and p.ret[1].endswith("::Err")):
                 continue
-            reads = [t for t in p.trace if is_call(t) and (t[1].startswith("bytes::Buf::get_") or t[1] in ("bytes::Buf::advance",))]
-            ok = len(reads) == 2 and reads[0][1] == "bytes::Buf::get_u16" and reads[1][1] == "bytes::Buf::advance"
+            TAKE = ("bytes::Buf::advance", "bytes::Bytes::split_to", "bytes::Buf::copy_to_bytes")
+            reads = [t for t in p.trace if is_call(t) and (t[1].startswith("bytes::Buf::get_") or t[1] in TAKE)]
+            ok = len(reads) == 2 and reads[0][1] == "bytes::Buf::get_u16" and reads[1][1] in TAKE
             ln = reads[1][2][1] if ok else None
             ok = ok and strip_cast(ln)[0] is not None and any(x is reads[0] or (is_call(x) and x[1] == "bytes::Buf::get_u16") for x in subterms(ln))
             sl = [x for t in p.trace for x in subterms(t) if isinstance(x, tuple) and x[0] == "index"]
@@ -533,6 +550,25 @@ def r_tagbody_bracket(run, F, T, rule="R-TAGBODY"):
         evs = events_of_trace(p.trace)
         if V + "Array" in vs:
             loops = [e for e in evs if e.tag == "for"]
+            sf = [x for e in evs for x in (subterms(e.value) if e.tag == "put" and e.value is not None else subterms(e.iter) if e.tag == "for" else [])
+                  if is_call(x, "core::slice::<impl [T]>::split_first") and field_of_self(x[2][0]) == ("Array", "0")]
+            if not evs and any(c[0] == "match" and is_call(c[1], "core::slice::<impl [T]>::split_first") for c in p.conds):
+                continue        # the empty set: nothing to write
+            if sf and len(evs) == 2 and evs[0].tag == "put" and body_of(evs[0]) is not None and loops == [evs[1]]:
+                # `if let Some((first, rest)) = list.split_first() { body(first); for item in rest { tag, empty name, body(item) } }`
+                first_t, rest_t = body_of(evs[0]), evs[1].iter
+                is_part = lambda t, i: any(x[0] == "proj" and x[2] == str(i) and x[1][0] == "proj" and is_call(x[1][1], "core::slice::<impl [T]>::split_first") for x in subterms(t))
+                run.ob(rule, "Array arm: first value untagged, then the rest of the split", is_part(first_t, 0) and is_part(rest_t, 1) and
+                       not any(is_call(x) and x[1].split("::")[-1] in ("rev", "skip", "step_by", "take") for x in subterms(rest_t)),
+                       "first = %s, rest = %s" % (tshow(first_t)[:60], tshow(rest_t)[:60]), site(eb), key="%s|Array|split-first" % rule)
+                for conds, bevs, kind in evs[1].bodies:
+                    n += check_pairs(run, bevs, conds, "Array", eb, rule)
+                    nb = sum(1 for e in bevs if body_of(e) is not None)
+                    tagged = sum(1 for e in bevs if tag_of(e))
+                    run.ob(rule, "Array arm: every element is emitted, once", nb == 1 and tagged == 1,
+                           "an iteration over the rest emits %d value bodies and %d tags" % (nb, tagged), site(eb), key="%s|Array|element-count|%d" % (rule, nb))
+                n += 1
+                continue
             run.ob(rule, "Array arm: one loop over the elements and nothing else", len(loops) == 1 and len(evs) == 1, [repr(e)[:60] for e in evs], site(eb),
                    key="%s|Array|shape" % rule)
             for lp in loops:
@@ -668,9 +704,14 @@ def r_frame(run, F, rule="R-FRAME"):
             evs = [e for e in events_of_trace(p.trace) if e.tag == "put"]
             val = ("field", SELF, "value")
             nm = ("field", SELF, "name")
+
+            def unbytes(x):
+                while is_call(x) and x[1] in BYTES_CALLS:       # name.as_bytes() and name denote the same octets
+                    x = x[2][0]
+                return x
             ok = len(evs) == 4 and evs[0].kind == "u8" and is_call(evs[0].value, TO_TAG) and evs[0].value[2][0] == val and \
-                evs[1].width == 2 and strip_cast(evs[1].value)[0][2][0] == nm and is_call(strip_cast(evs[1].value)[0]) and \
-                evs[2].kind == "slice" and is_call(evs[2].value) and evs[2].value[2][0] == nm and \
+                evs[1].width == 2 and is_call(strip_cast(evs[1].value)[0]) and strip_cast(evs[1].value)[0][1] in LEN_CALLS and unbytes(strip_cast(evs[1].value)[0][2][0]) == nm and \
+                evs[2].kind == "slice" and unbytes(evs[2].value) == nm and \
                 evs[3].kind == "buf" and is_call(evs[3].value, TO_BYTES) and evs[3].value[2][0] == val
             run.ob(rule, "attribute = value tag, name length, name, value (length + body)", ok, [repr(e)[:60] for e in evs], site(ab), key="%s|attribute-enc" % rule)
     from .readerrules import PARSERS, async_on
